@@ -117,3 +117,14 @@ func refMatch(idv, ida string, z *Decimal, r refResult, neg bool) {
 	vAssert(idv, ok)
 	vAssert(ida, z.acc == r.acc)
 }
+
+// refMatchSign is refMatch with separate sign expectation and optional accuracy id.
+func refMatchSign(idv, ida string, z *Decimal, r refResult, neg bool) {
+	if ida == "" {
+		if r.form != finite {
+			vAssert(idv, vAnd(z.form == r.form, z.neg == neg))
+			return
+		}
+	}
+	refMatch(idv, ida, z, r, neg)
+}
